@@ -107,6 +107,8 @@ func (c11) Generate(r *core.Rng, run int, tier string) *core.History {
 	h.Strs["keys"] = strings.Join(ks, ",")
 	nops := 5 + r.Intn(30)
 	val := int64(0)
+	// the language-level operations are issued from inside a function on the outer (global) map
+	h.Flags["infunc"] = r.Bool(.3)
 	pairs := func(n int) []string {
 		var out []string
 		for j := 0; j < n; j++ {
@@ -126,8 +128,16 @@ func (c11) Generate(r *core.Rng, run int, tier string) *core.History {
 			h.Events = append(h.Events, core.Event{Ev: "merge", Args: pairs(r.Intn(7))})
 		case k < 16:
 			h.Events = append(h.Events, core.Event{Ev: "rest"})
-		case k < 18:
+		case k < 17:
 			h.Events = append(h.Events, core.Event{Ev: "range", N: int64(r.Intn(4)), M: int64(r.Intn(8))})
+		case k < 18:
+			if r.Bool(.3) {
+				// an assignment whose index expression fails: must fail as a whole and store nothing
+				h.Events = append(h.Events, core.Event{Ev: "set-bad-index", M: val})
+				break
+			}
+			// raw bounds: negative = from the end, beyond either end = clamped, left > right = error
+			h.Events = append(h.Events, core.Event{Ev: "range-raw", N: int64(r.Intn(25) - 12), M: int64(r.Intn(25) - 8)})
 		case k < 19:
 			h.Events = append(h.Events, core.Event{Ev: "literal", Args: pairs(r.Intn(9))})
 		default:
@@ -317,6 +327,12 @@ func (c11) Execute(h *core.History) *core.Outcome {
 	sess := world.NewSession(sessCfgOf(h))
 	st.Execs = 1
 	sess.Input("m = {}", nil)
+	stmt := func(src string) string { // an operation on m, possibly from inside a function
+		if h.F("infunc") {
+			return "(() => { " + src + " })()"
+		}
+		return src
+	}
 	var gm object.Map = object.NewMapSize(0)
 	var shape []string
 	check := func(i int) {
@@ -372,7 +388,9 @@ func (c11) Execute(h *core.History) *core.Outcome {
 		case "set":
 			k := int(e.N)
 			gm = gm.Set(keyObj(keyPool[k]), object.Integer{Value: e.M})
-			sess.Input(fmt.Sprintf("m[%s] = %d", keyPool[k].src, e.M), nil)
+			if r := sess.Input(stmt(fmt.Sprintf("m[%s] = %d", keyPool[k].src, e.M)), nil); r.Class != "value" {
+				fail(i, "src-valid-operation-fails", fmt.Sprintf("%q gives %s %v", stmt(fmt.Sprintf("m[%s] = %d", keyPool[k].src, e.M)), r.Class, truncAll(r.Errs)))
+			}
 			mod.set(k, e.M)
 		case "del":
 			k := int(e.N)
@@ -381,9 +399,9 @@ func (c11) Execute(h *core.History) *core.Outcome {
 			if changed != (mod.find(k) >= 0) {
 				fail(i, "api-delete-result", fmt.Sprintf("Delete(%s) reports changed=%v, model had key: %v", keyPool[k].src, changed, mod.find(k) >= 0))
 			}
-			r := sess.Input(fmt.Sprintf("del(m[%s])", keyPool[k].src), nil)
+			r := sess.Input(stmt(fmt.Sprintf("del(m[%s])", keyPool[k].src)), nil)
 			if want := fmt.Sprintf("%v\n", mod.find(k) >= 0); r.Echo != want {
-				fail(i, "src-delete-result", fmt.Sprintf("del(m[%s]) echoes %q, model %q", keyPool[k].src, r.Echo, want))
+				fail(i, "src-delete-result", fmt.Sprintf("%s echoes %q %v, model %q", stmt(fmt.Sprintf("del(m[%s])", keyPool[k].src)), r.Echo, truncAll(r.Errs), want))
 			}
 			mod.del(k)
 		case "merge":
@@ -440,6 +458,41 @@ func (c11) Execute(h *core.History) *core.Outcome {
 			}
 			gm = rm
 			sess.Input(fmt.Sprintf("m = m[%d:%d]", l, r), nil)
+			mod.pairs = append([]mpair(nil), mod.pairs[l:r]...)
+		case "set-bad-index":
+			r := sess.Input(stmt(fmt.Sprintf("m[no_such_name_zz] = %d", e.M)), nil)
+			if r.Class != "lang-error" {
+				fail(i, "src-failed-operation-reports-error", fmt.Sprintf("m[no_such_name_zz] = %d gives %s %q", e.M, r.Class, trunc(r.Echo, 80)))
+			}
+		case "range-raw":
+			n := int64(len(mod.pairs))
+			l, r := e.N, e.M
+			if l < 0 {
+				l += n
+			}
+			if r < 0 {
+				r += n
+			}
+			l, r = max(l, 0), max(r, 0) // before the start = the start
+			inverted := l > r          // judged before the bounds are clamped to the length (m[10:9] is an error even on {})
+			l, r = min(l, n), min(r, n)
+			res := sess.Input(stmt(fmt.Sprintf("m = m[%d:%d]", e.N, e.M)), nil)
+			if inverted {
+				if res.Class != "lang-error" {
+					fail(i, "src-range", fmt.Sprintf("m[%d:%d] on %d pairs (left after right) gives %s", e.N, e.M, n, res.Class))
+				}
+				break
+			}
+			if res.Class != "value" {
+				fail(i, "src-range", fmt.Sprintf("m[%d:%d] on %d pairs gives %s %v, expected pairs %d..%d", e.N, e.M, n, res.Class, truncAll(res.Errs), l, r))
+				break
+			}
+			rm, ok := object.Range(gm, l, r).(object.Map)
+			if !ok {
+				fail(i, "api-range", fmt.Sprintf("Range(%d,%d) of %s is not a map", l, r, gm.Inspect()))
+				break
+			}
+			gm = rm
 			mod.pairs = append([]mpair(nil), mod.pairs[l:r]...)
 		case "literal":
 			ps := parsePairs(e.Args)
